@@ -19,7 +19,7 @@ from esrally import config
 from esrally.track import loader, track
 from esrally.utils import opts
 
-OP_TYPES = ["bulk", "search", "force-merge", "create-index", "raw-request", "custom-type", "index", "sleep"]
+OP_TYPES = ["bulk", "search", "force-merge", "create-index", "raw-request", "custom-type", "custom_type", "index", "sleep"]  # custom types of a track's own runners: any string
 # operation names deliberately overlap with operation types, tags and task names so that a filter of one kind
 # that is evaluated against the wrong attribute selects a different set of tasks
 OP_NAMES = ["index", "search", "bulk", "term", "match-all", "force-merge", "Index", "index-append", "stats", "scroll", "setup", "read-op"]
